@@ -76,7 +76,11 @@ META = {
         "by (line_offset -> line, column_offset -> column) - directly, in a helper, or element-wise in a comprehension - with "
         "context_mark guarded against None, and the offsets reach every clone() call un-crossed (in _to_tokens whenever either is non-zero). "
         "R6: the state machine around the scanners: block/quoted scalars are dispatched on exactly the characters PyYAML's "
-        "fetch_more_tokens uses and get that character as style; scanners left/right of ':' get is_key True/False; every "
+        "fetch_more_tokens uses and get that character as style; when the text after 'key:' continues at column 0, exactly the "
+        "scalars that PyYAML can never take for a simple key (fetch_block_scalar removes the possible simple key; fetch_flow_scalar "
+        "and fetch_plain save one, which is required at the mapping's column) are scanned as the value - a '|'/'>' header reaches "
+        "_scan_block_scalar there, a quoted or plain scalar does not (three-valued evaluation of the dispatch tests under 'column "
+        "0, character c'); scanners left/right of ':' get is_key True/False; every "
         "pending key reaches a yield before it is overwritten or the generator ends and none is yielded twice; the protocol "
         "invariant 'a value token arrives only while a key is pending' is proved from both sides (_tokenize: no CFG path from the "
         "start or from a value yield to a value yield avoids a key yield, is_key decides the token class; _to_tokens: every key "
@@ -86,9 +90,8 @@ META = {
         "(no second, unscanned way of producing pairs)."
     ),
     "not_decided": (
-        "equality of the returned (key, value) pairs with a YAML loader for every string (runtime-valued); two deliberate, "
-        "value-level choices of _tokenize are outside every rule: keys must start at column 0, and a '|'/'>' at column 0 after an "
-        "empty 'key:' is read as the next key; and/or structure of boolean tests and value-level arithmetic such as "
+        "equality of the returned (key, value) pairs with a YAML loader for every string (runtime-valued); one deliberate, "
+        "value-level choice of _tokenize is outside every rule: keys must start at column 0 (indented mappings are rejected); and/or structure of boolean tests and value-level arithmetic such as "
         "`indent = 0 if is_key else 1`; the relational progress argument of the two tabled loops; whether a conditional "
         "addition that PyYAML lacks is redundant"
     ),
@@ -3301,6 +3304,71 @@ def yaml_dispatch(corpus: Corpus) -> dict:
     return {k: frozenset(v) for k, v in out.items()}
 
 
+def yaml_key_capable(corpus: Corpus) -> dict:
+    """{'block': bool, 'flow': bool, 'plain': bool}: may a scalar of that kind be a simple key in PyYAML?  Read from the scanner:
+    fetch_flow_scalar / fetch_plain call save_possible_simple_key(), fetch_block_scalar calls remove_possible_simple_key().
+    At the column of the enclosing block mapping a possible simple key is *required* (save_possible_simple_key: `required =
+    not self.flow_level and self.indent == self.column`), so such a scalar there is the next key or an error, never the value;
+    a scalar that cannot be a key is the value wherever it stands."""
+    sib = corpus.sibling("yaml/scanner.py")
+    out = {}
+    for kind, fn in (("block", "Scanner.fetch_block_scalar"), ("flow", "Scanner.fetch_flow_scalar"), ("plain", "Scanner.fetch_plain")):
+        f = sib.func(fn)
+        names = {(dotted(c.func) or "") for c in f.local_nodes() if isinstance(c, ast.Call)}
+        saves, removes = "self.save_possible_simple_key" in names, "self.remove_possible_simple_key" in names
+        if saves == removes:
+            raise Unsupported(f"PyYAML {fn}: simple-key handling not understood")
+        out[kind] = saves
+    spk = sib.func("Scanner.save_possible_simple_key")
+    if not any(isinstance(n, ast.Compare) and "self.indent" in unparse(n) and "self.column" in unparse(n) for n in spk.local_nodes()):
+        raise Unsupported("PyYAML save_possible_simple_key: the 'required at the mapping's column' test was not found")
+    return out
+
+
+def _eval3(e, col0: bool, ch: str, is_ch, is_column, consts):
+    """three-valued evaluation (True / False / None) of a dispatch test under 'the cursor is [not] at column 0 on character ch'"""
+    if isinstance(e, ast.UnaryOp) and isinstance(e.op, ast.Not):
+        v = _eval3(e.operand, col0, ch, is_ch, is_column, consts)
+        return None if v is None else not v
+    if isinstance(e, ast.BoolOp):
+        vals = [_eval3(v, col0, ch, is_ch, is_column, consts) for v in e.values]
+        if isinstance(e.op, ast.And):
+            return False if any(v is False for v in vals) else None if any(v is None for v in vals) else True
+        return True if any(v is True for v in vals) else None if any(v is None for v in vals) else False
+    if isinstance(e, ast.Compare) and len(e.ops) == 1:
+        left, op, right = e.left, e.ops[0], e.comparators[0]
+        if is_column(left) and col0:
+            try:
+                c = consts(right)
+            except Unsupported:
+                return None
+            if isinstance(c, int):
+                return {ast.Eq: 0 == c, ast.NotEq: 0 != c, ast.Lt: 0 < c, ast.LtE: 0 <= c, ast.Gt: 0 > c, ast.GtE: 0 >= c}.get(type(op))
+            return None
+        if is_ch(left):
+            try:
+                c = consts(right)
+            except Unsupported:
+                return None
+            if isinstance(op, (ast.In, ast.NotIn)):
+                cs = as_charset(c)
+                if cs is None:
+                    return None
+                return (ch in cs) if isinstance(op, ast.In) else (ch not in cs)
+            if isinstance(op, (ast.Eq, ast.NotEq)) and isinstance(c, str):
+                return (ch == c) if isinstance(op, ast.Eq) else (ch != c)
+        return None
+    if is_column(e) and col0:
+        return False  # `if stream.column:` at column 0
+    if isinstance(e, ast.Constant):
+        return bool(e.value)
+    if isinstance(e, ast.Name) and not is_ch(e):
+        d = getattr(is_column, "resolve", lambda _n: None)(e)  # a local holding a test made at this cursor position
+        if d is not None:
+            return _eval3(d, col0, ch, is_ch, is_column, consts)
+    return None
+
+
 def _reach1(cfg, start, stops, avoid) -> list:
     """stop nodes reachable from ``start`` over >= 1 edge without passing an ``avoid`` node"""
     seen: set = set()
@@ -3390,6 +3458,61 @@ def r6_state_machine(corpus: Corpus, rep: Report, tier: str):
                 rep.error("C07.R6", f"{site} {callee.name}: is_key argument not a literal")
     if n_disp < 3:
         rep.error("C07.R6", f"expected the quoted-key, block-value and quoted-value dispatches in _tokenize, found {n_disp}")
+    # which first characters start the *value* when the text after 'key:' continues at column 0 (the mapping's own column)?
+    # PyYAML: a scalar that may be a simple key is, there, the next key; one that cannot (a block scalar header) is the value.
+    capable = yaml_key_capable(corpus)
+    cfg = get_cfg(tok)
+    kind_of = {"_scan_block_scalar": "block", "_scan_flow_scalar": "flow", "_scan_plain_scalar": "plain"}
+    probes = {"block": sorted(oracle["block"]), "flow": sorted(oracle["flow"]), "plain": ["a", "-", "0"]}
+
+    def is_ch(x):
+        t_ = e9.peek_target(x, tok, st_) if isinstance(x, (ast.Name, ast.Call)) else None
+        return t_ is not None and t_[0] == "0"
+
+    def is_column(x):
+        return isinstance(x, ast.Attribute) and x.attr == "column" and e9.is_stream(x.value, tok)
+
+    def resolve_local(nm):
+        ds = e9.reaching(tok, nm.id, st_)
+        if len(ds) == 1 and isinstance(ds[0], ast.Assign) and len(ds[0].targets) == 1 and isinstance(ds[0].targets[0], ast.Name) and not e9.intervening(cfg, ds[0], st_, e9.killers(tok)):
+            return ds[0].value
+        return None
+
+    is_column.resolve = resolve_local
+    seen_v: Counter = Counter()
+    for call in sorted((c for c in tok.local_nodes() if isinstance(c, ast.Call) and isinstance(c.func, ast.Name) and c.func.id in kind_of), key=lambda c: (c.lineno, c.col_offset)):
+        st_ = cfg.stmt_of(call)
+        if not cfg.dominates(colon, st_):
+            continue
+        kd = kind_of[call.func.id]
+        k = f"{tok.fq}|value continuing at column 0: {call.func.id}"
+        seen_v[k] += 1
+        k += f" #{seen_v[k]}" if seen_v[k] > 1 else ""
+        # only tests made at this very cursor position count (earlier ones speak about consumed characters)
+        guards = []
+        for d_ in cfg.dom().get(st_, ()):
+            if isinstance(d_, tuple) and d_[0] in ("T", "F") and isinstance(d_[1], (ast.If, ast.While)) and not e9.intervening(cfg, d_[1], st_, e9.killers(tok)):
+                guards += split_facts(d_[1].test, d_[0] == "T")
+        verdicts = {}
+        for c_ in probes[kd]:
+            vals = [(_eval3(t_, True, c_, is_ch, is_column, m.eval_const), pol) for t_, pol in guards]
+            if any(v is not None and v != pol for v, pol in vals):
+                verdicts[c_] = "unreachable"
+            elif all(v is not None for v, _ in vals):
+                verdicts[c_] = "reached"
+            else:
+                verdicts[c_] = "unknown"
+        want = "unreachable" if capable[kd] else "reached"
+        wrong = sorted(c_ for c_, v in verdicts.items() if v not in (want, "unknown"))
+        unknown = sorted(c_ for c_, v in verdicts.items() if v == "unknown")
+        if wrong and capable[kd]:
+            rep.violation("C07.R6", k, m.site(call), f"after 'key:' a {kd} scalar starting with {wrong!r} at column 0 is scanned as the value; PyYAML's scanner requires a possible simple key at the mapping's column (save_possible_simple_key), so it reads it as the next key: `a:` then `'b': c` gives [('a', ''), ('b', 'c')] in YAML")
+        elif wrong:
+            rep.violation("C07.R6", k, m.site(call), f"after 'key:' a block scalar header {wrong!r} standing at column 0 does not reach {call.func.id}: it is taken for the next key (TokenizeError \"expected ':' after key\", or a wrong pair), where PyYAML - whose fetch_block_scalar can never be a simple key - reads it as the value ('a:' / '|' / ' x' gives [('a', 'x\\n')])")
+        elif unknown:
+            rep.error("C07.R6", f"{m.site(call)} {call.func.id}: cannot decide whether it is reached at column 0 for {unknown!r} (a dispatch test the rule cannot evaluate)")
+        else:
+            rep.ok("C07.R6", k, m.site(call), ("never the value at column 0 (a possible simple key is required there)" if capable[kd] else f"reached at column 0 for {''.join(probes[kd])!r} (cannot be a key)"))
     # -- _to_tokens: every key is emitted exactly once
     tt = m.func("_to_tokens")
     cfg = get_cfg(tt)
@@ -3737,7 +3860,7 @@ def mutants(corpus: Corpus):
     add("c07-clone-line-off-by-one", "C07.R5", "TokenizeError.clone", lambda n: isinstance(n, ast.BinOp) and unparse(n) == "self.context_mark.line + line_offset", "self.context_mark.line + line_offset + 1", "self.context_mark shifted")
     add("c07-position-fields-crossed", "C07.R5", "StreamBuffer.get_position", lambda n: isinstance(n, ast.Call) and dotted(n.func) == "Position", "Position(self._index, self._column, self._line)", "Position.line")
     # (d) the state machine around the scanners
-    add("c07-folded-indicator-not-dispatched", "C07.R6", "_tokenize", lambda n: isinstance(n, ast.Tuple) and unparse(n) == "('|', '>')", '("|",)', "dispatch set")
+    add("c07-folded-indicator-not-dispatched", "C07.R6", "_tokenize", lambda n: isinstance(n, ast.Tuple) and unparse(n) == "('|', '>')" and isinstance(parent(n), ast.Compare) and isinstance(parent(n).ops[0], ast.In), '("|",)', "dispatch set")
     add("c07-block-style-constant", "C07.R6", "_tokenize", lambda n: isinstance(n, ast.Call) and dotted(n.func) == "cast" and "'|'" in unparse(n.args[0]), '"|"', "style is the dispatch character")
     add("c07-value-scanned-as-key", "C07.R6", "_tokenize", lambda n: isinstance(n, ast.keyword) and n.arg == "is_key" and unparse(n.value) == "False", "is_key=True", "is_key", nth=1)
     add("c07-trailing-key-dropped", "C07.R6", "_to_tokens", lambda n: isinstance(n, ast.If) and unparse(n.test) == "key_token is not None" and not any(isinstance(a, (ast.For, ast.While)) for a in _ancestors_until(n)), "pass", "reaches a yield")
@@ -3924,4 +4047,11 @@ def mutants(corpus: Corpus):
     else:
         out.append(("c07-chr-range-check-became-except-valueerror", "range check not found"))
     add("c07-block-continuation-ignores-end", "C07.R4", "_scan_block_scalar", lambda n: isinstance(n, ast.If) and unparse(n.test) == "stream.column == indent and stream.peek() != _CHARS_END", lambda n: ast.get_source_segment(m.src, n).replace(ast.get_source_segment(m.src, n.test), "stream.column == indent", 1), "_scan_block_scalar|guards")
+    # --- round 14: which first characters start the value when the text after 'key:' continues at column 0 (fix 2caf706) ---
+    col0 = lambda n: isinstance(n, ast.If) and "stream.column == 0" in unparse(n.test) and "not in" in unparse(n.test)
+    tst = lambda n: ast.get_source_segment(m.src, n.test)
+    add("c07-block-header-at-column-0-is-next-key", "C07.R6", "_tokenize", col0, lambda n: ast.get_source_segment(m.src, n).replace(tst(n), "stream.column == 0", 1), "value continuing at column 0: _scan_block_scalar", canary=False)
+    add("c07-folded-header-at-column-0-is-next-key", "C07.R6", "_tokenize", col0, lambda n: ast.get_source_segment(m.src, n).replace(tst(n), 'stream.column == 0 and ch != "|"', 1), "value continuing at column 0: _scan_block_scalar")
+    add("c07-quoted-scalar-at-column-0-is-the-value", "C07.R6", "_tokenize", col0, lambda n: ast.get_source_segment(m.src, n).replace(tst(n), 'stream.column == 0 and ch not in ("|", ">", "\'", \'"\')', 1), "value continuing at column 0: _scan_flow_scalar")
+    add("c07-anything-at-column-0-is-the-value", "C07.R6", "_tokenize", col0, lambda n: ast.get_source_segment(m.src, n).replace(tst(n), "False", 1), "value continuing at column 0: _scan_plain_scalar")
     return out
